@@ -236,10 +236,19 @@ pub fn check_names(w: &str, stats: &mut Stats) -> Vec<Failure> {
     src.push_str(&format!("#[tauri::command]\npub fn save_layout(new_layout: {}, page_id: Option<u32>) {{}}\n\n", ty.rust(false)));
     src.push_str("#[tauri::command]\npub fn keep(p: Page) {}\n\n#[tauri::command]\npub fn subscribe(on_event: Channel<Form>) {}\n\n");
     src.push_str("#[tauri::command]\npub fn mixed(user_id: i32, on_big_event: Channel<FormSchema>, opt_name: Option<String>) {}\n");
+    // a mapped external type (Timestamp -> number in both runs) as a parameter and inside a channel message
+    src.push_str("\n#[tauri::command]\npub fn ticks(since: Timestamp, on_tick: Channel<Vec<Timestamp>>) {}\n");
+    // types that only an event payload reaches (no command mentions them), nested through the same wrap
+    let via = wrap(w, Ty::named("Origin"), false);
+    src.push_str("\n#[derive(Debug, Clone, Default, Serialize, Deserialize, PartialEq, Eq, Hash)]\npub struct Origin {\n    pub host: String,\n    pub stage: Stage,\n}\n\n");
+    src.push_str("#[derive(Debug, Clone, Default, Serialize, Deserialize, PartialEq, Eq, Hash)]\npub enum Stage {\n    #[default]\n    Queued,\n    Done,\n}\n\n");
+    src.push_str(&format!("#[derive(Debug, Clone, Default, Serialize, Deserialize)]\npub struct Notice {{\n    pub text: String,\n    pub origin: {},\n}}\n\n", via.rust(true)));
+    src.push_str("pub fn announce(app: &AppHandle) {\n    app.emit(\"notice\", Notice { text: String::new(), origin: Default::default() }).unwrap();\n}\n");
     must_parse("src/lib.rs", &src);
     let files = [("src/lib.rs".to_string(), src.clone())];
-    let out_n = generate(&files, &Cfg::mode("none"));
-    let out_z = generate(&files, &Cfg::mode("zod"));
+    let mapping = vec![("Timestamp".to_string(), "number".to_string())];
+    let out_n = generate(&files, &Cfg { type_mappings: mapping.clone(), ..Cfg::mode("none") });
+    let out_z = generate(&files, &Cfg { type_mappings: mapping, ..Cfg::mode("zod") });
     stats.eval();
     stats.nontrivial(&("names", w));
     stats.label("names_and_params");
@@ -255,7 +264,19 @@ pub fn check_names(w: &str, stats: &mut Stats) -> Vec<Failure> {
     let mut fails = vec![];
     let mk = |kind: &str, obs: String, exp: String| Failure::new(kind).tags(tags.clone()).observed(obs).expected(exp).case(case.clone());
     // parameter objects: same keys, same omittability
-    for params in ["SaveLayoutParams", "KeepParams", "SubscribeParams", "MixedParams"] {
+    for params in ["SaveLayoutParams", "KeepParams", "SubscribeParams", "MixedParams", "TicksParams"] {
+        // members written out in both modes (the channels): the same TypeScript type
+        if let (Some(a), Some(b)) = (pn.interface(params), pz.interface(params)) {
+            let ma = crate::ts::shape::members_to_obj(&a.members);
+            let mb = crate::ts::shape::members_to_obj(&b.members);
+            for (k, (_, sb)) in &mb {
+                if let Some((_, sa)) = ma.get(k) {
+                    if sa != sb {
+                        fails.push(mk("param_member_type_differs", format!("zod: {}: {}", k, sb), format!("plain: {}: {}", k, sa)).tag(format!("params={}", params)));
+                    }
+                }
+            }
+        }
         let kn = super::c04::keys_of_type(&pn, params);
         let kz = super::c04::keys_of_type(&pz, params);
         match (&kn, &kz) {
@@ -267,9 +288,32 @@ pub fn check_names(w: &str, stats: &mut Stats) -> Vec<Failure> {
             (Err(e), _) | (_, Err(e)) => fails.push(mk("param_object_unreadable", e.clone(), format!("{} readable in both modes", params)).tag(format!("params={}", params))),
         }
     }
+    // the same set of type names in both modes (project types and parameter objects)
+    {
+        let names = |text: &str, zod: bool| -> std::collections::BTreeSet<String> {
+            let p = tsx::parse(text);
+            let mut out = std::collections::BTreeSet::new();
+            for (name, is_type, is_value, _) in p.declared() {
+                if is_type {
+                    out.insert(name.to_string());
+                } else if zod && is_value {
+                    // a schema constant stands for the type it describes
+                    out.insert(name.strip_suffix("Schema").unwrap_or(&name).to_string());
+                }
+            }
+            out
+        };
+        let a = names(out_n.file("types.ts").unwrap_or(""), false);
+        let b = names(out_z.file("types.ts").unwrap_or(""), true);
+        let only_plain: Vec<&String> = a.difference(&b).collect();
+        let only_zod: Vec<&String> = b.difference(&a).collect();
+        if !only_plain.is_empty() || !only_zod.is_empty() {
+            fails.push(mk("declared_names_differ", format!("only in plain mode: {:?}; only in zod mode: {:?}", only_plain, only_zod), "the same set of type and parameter-object names in both modes".into()));
+        }
+    }
     // structs: same keys, per key the same shape
     let env = schema_env(out_z.file("types.ts").unwrap_or(""));
-    for st in ["Form", "FormSchema", "Page"] {
+    for st in ["Form", "FormSchema", "Page", "Notice", "Origin"] {
         let Some(iface) = pn.interface(st) else {
             fails.push(mk("missing_decl", format!("no interface {} in plain mode", st), "declared".into()));
             continue;
